@@ -246,3 +246,58 @@ def mixed_concrete(p, m):
     if exact == 0:
         return tuple(r) == FZERO, 'exact result is zero, got %r' % (r,)
     return O.check_rounded(r, exact, prec, 'n')
+
+
+# ------------------------------------------------------------------------------ conversion of rationals (Fraction / mpq) to mpf
+def convert_mpq(p):
+    """mp.convert(x) / mpmathify(x) for a rational x = P/Q (an mpq object with symbolic numerator and denominator; Fractions
+    are turned into one by the same function): the correctly rounded quotient at the context precision, to nearest"""
+    import mpmath
+    from mpmath import rational
+    from pysym import mpmodels
+    pbc, qbc, prec = p['pbc'], p['qbc'], p['prec']
+    k = max(prec + 3 - (pbc - qbc), 0) + 2
+    ob = Ob(wbump(p, pbc + qbc + k + 2 * prec + 70), timeout_s=p.get('_t', 60), mul_precise_bits=128,
+            models=mpmodels.mp_models(contract_divmod=True, contract_sqrt=False))
+    G.stats['DIV_PRECISE_BITS'] = 4096
+    Pa = ob.int('P_abs', 1 << (pbc - 1), (1 << pbc) - 1) if pbc > 1 else 1
+    Pn = ob.bit('P_neg')
+    P = V.merge(zt(Pn) == B(1), V.neg(Pa), Pa)
+    Q = ob.int('Q', 1 << (qbc - 1), (1 << qbc) - 1) if qbc > 1 else 1
+    mp = _ctx(prec)
+    x = object.__new__(rational.mpq)
+    x._mpq_ = (P, Q)
+    outs = ob.run(mp.convert, [x])
+    N = zt(Pa) << k
+    A = z3.UDiv(N, zt(Q))
+    sticky = z3.URem(N, zt(Q)) != B(0)
+    neg = zt(Pn) == B(1)
+    cls = mp.mpf
+
+    def good(val, st):
+        if not isinstance(val, cls):
+            return False
+        h = st.heap.get((id(val), '_mpf_'))
+        val = h[1] if h is not None else val._mpf_
+        R = ref_round(A, sticky, prec, 'n', neg, pbc + k - qbc, pbc + k - qbc + 1)
+        return value_matches(val, neg, R, B(-k), pbc + k - qbc + 4, prec)
+    return finish(ob, ob.prove(outs, good))
+
+
+def convert_mpq_concrete(p, m):
+    from fractions import Fraction as Fr
+    pbc, qbc, prec = p['pbc'], p['qbc'], p['prec']
+    Pa = 1 if pbc == 1 else m['P_abs']
+    P = -Pa if m.get('P_neg') else Pa
+    Q = 1 if qbc == 1 else m['Q']
+    mp = _ctx(prec)
+    try:
+        r = mp.convert(Fr(P, Q))._mpf_
+        r2 = (mp.mpf(1) * 0 + Fr(P, Q))._mpf_            # the mixed-operand route goes through the same conversion
+    finally:
+        mp.prec = 53
+    ok, d = O.check_rounded(r, Fr(P, Q), prec, 'n')
+    if ok:
+        ok, d = O.check_rounded(r2, Fr(P, Q), prec, 'n')
+        d = 'mpf(0) + Fraction: ' + d
+    return ok, 'mpmathify(Fraction(%d, %d)) at %d bits: %s' % (P, Q, prec, d)
